@@ -9,7 +9,8 @@ Acts(s) ==
   { [t |-> "AddClock"], [t |-> "AddExt"] }
   \cup { [t |-> "RemoveClock", x |-> x] : x \in Ids } \cup { [t |-> "RemoveExt", x |-> x] : x \in Ids }
   \cup { [t |-> "AddLink", a |-> a, b |-> b, k |-> k] : a \in Ids, b \in Ids, k \in {"tracked", "untracked"} }
-  \cup { [t |-> tt, l |-> l] : tt \in {"RemoveLink", "Measure", "Steer", "Back"}, l \in LinkRecs(s) }
+  \cup { [t |-> tt, l |-> l] : tt \in {"RemoveLink", "Measure", "Activate", "Back"}, l \in LinkRecs(s) }
+  \cup { [t |-> "Steer", x |-> x] : x \in Ids }
 
 \* failing AddLink variants are the same for both link kinds: keep one
 Pruned(s, a) == a.t = "AddLink" /\ Res(s, a) # "ok" /\ a.k = "untracked"
